@@ -73,6 +73,8 @@ package nsqd
 //@   onreturn cmdHandled := cmdHandled + 1
 //@   props C09 C01 C07
 //@   requires validPubCtx(p, client)
+//   (round 4, area E) CheckAuth may re-fetch the authorization: the verified QueryAuthd takes the remote IP from the connection
+//@   requires[connected] client.Conn != nil
 //@   ensures[fatal-or-ok] fatalOrNil(result1)
 //@   ensures[params] len(params) < 2 ==> isFatal(result1, "E_INVALID") && rPos == old(rPos)
 //@   ensures[bad-topic-length] len(params) >= 2 && (len(params[1]) < 1 || len(params[1]) > 64) ==> isFatal(result1, "E_BAD_TOPIC") && rPos == old(rPos)
@@ -98,6 +100,8 @@ package nsqd
 //@   onreturn cmdHandled := cmdHandled + 1
 //@   props C09 C01 C07 C04
 //@   requires validPubCtx(p, client)
+//   (round 4, area E) CheckAuth may re-fetch the authorization: the verified QueryAuthd takes the remote IP from the connection
+//@   requires[connected] client.Conn != nil
 //@   ensures[fatal-or-ok] fatalOrNil(result1)
 //@   ensures[params] len(params) < 3 ==> isFatal(result1, "E_INVALID") && rPos == old(rPos)
 //@   ensures[bad-topic-length] len(params) >= 3 && (len(params[1]) < 1 || len(params[1]) > 64) ==> isFatal(result1, "E_BAD_TOPIC") && rPos == old(rPos)
@@ -164,6 +168,8 @@ package nsqd
 //@   onreturn cmdHandled := cmdHandled + 1
 //@   props C09 C01 C07
 //@   requires validPubCtx(p, client)
+//   (round 4, area E) CheckAuth may re-fetch the authorization: the verified QueryAuthd takes the remote IP from the connection
+//@   requires[connected] client.Conn != nil
 //@   ensures[fatal-or-ok] fatalOrNil(result1)
 //@   ensures[params] len(params) < 2 ==> isFatal(result1, "E_INVALID") && rPos == old(rPos)
 //@   ensures[bad-topic-length] len(params) >= 2 && (len(params[1]) < 1 || len(params[1]) > 64) ==> isFatal(result1, "E_BAD_TOPIC") && rPos == old(rPos)
